@@ -591,9 +591,9 @@ Verdict propHistory(Ctx& c) {
       }
       ++accepted;
       if (pred.e == m6::Expect::Free) {
-        c.count("unconstrained:empty-erase-range");
-        // an empty range: either nothing is erased, or (expand) the reference that contains it
-        bool ok = res->start == a && res->finish == b;
+        c.count("unconstrained:erase-" + std::string(a == b ? "empty-range" : "between-touching-refs"));
+        // acceptance is not pinned; if accepted, the erased range is the requested one or (expand) the reference containing it
+        bool ok = (res->start == a && res->finish == b) || (res->start == pred.a && res->finish == pred.b);
         if (!ok && expand) for (auto& r : sh.refs) if (r.start <= a && b <= r.finish && res->start == r.start && res->finish == r.finish) ok = true;
         CHECK(ok, "erase-range", what + " returned " + rng(res->start, res->finish));
       }
@@ -696,9 +696,9 @@ int main(int argc, char** argv) {
   props.push_back({"literal", propLiteral, 0, 0, true, false, "fixed texts: witnesses of the listed findings and the strings of the upstream unit tests"});
   props.push_back({"enum_tokens5", propEnum5, 0, 0, true, false, "every text of <=5 symbols over {a,@{,},|,X1,nomn,-1,@,{,3-byte char}; non-trivial = contains a candidate"});
   props.push_back({"enum_tokens6", propEnum6, 0, 0, true, true, "every text of <=6 symbols over the same alphabet"});
-  props.push_back({"extract", propExtract, 20000, 150000, false, false, ">=2 candidates incl. a well-formed reference with multi-byte text before a reference"});
-  props.push_back({"resolve", propResolve, 12000, 100000, false, false, ">=2 references, multi-byte text before one, some resolution of different length"});
-  props.push_back({"managed", propManaged, 8000, 60000, false, false, ">=2 references, multi-byte text before one, the renaming changes a reference"});
-  props.push_back({"history", propHistory, 8000, 60000, false, false, "an Insert / EraseIn position touches a reference"});
+  props.push_back({"extract", propExtract, 8000, 150000, false, false, ">=2 candidates incl. a well-formed reference with multi-byte text before a reference"});
+  props.push_back({"resolve", propResolve, 6000, 100000, false, false, ">=2 references, multi-byte text before one, some resolution of different length"});
+  props.push_back({"managed", propManaged, 4000, 60000, false, false, ">=2 references, multi-byte text before one, the renaming changes a reference"});
+  props.push_back({"history", propHistory, 4000, 60000, false, false, "an Insert / EraseIn position touches a reference"});
   return pbt::main(argc, argv, "C17", props);
 }
